@@ -24,7 +24,7 @@ LEVEL = "fault_enumeration"
 ALPHABET = ["normal", "zero", "tiny", "huge", "overflow", "nan", "inf"]
 MODERATE = {"normal", "zero", "tiny", "huge"}
 RULE = ("fault enumeration: for each configuration in {failure threshold 0,1e-30,0.1,1e30} x {matrix epsilon 0,1e-6} x {Newton,eigh} "
-        "x {preconditioner interval 1,2} x {jit, pmap int16-quantised, sharded 2-device mesh} x {x64 on, off}, plus 72 configurations with all-1x1 statistics, a 64x64 statistic, or a padded 1x1 statistic among larger ones (ragged last block) (thorough: x graft {SGD, RMSProp, normalised AdaGrad}), ALL words of length T "
+        "x {preconditioner interval 1,2} x {jit, pmap int16-quantised, sharded 2-device mesh} x {x64 on, off}, plus 72 configurations with all-1x1 statistics, a 64x64 statistic, or a padded 1x1 statistic among larger ones (ragged last block), plus 24 configurations with a 1600-entry leaf, plus 32 configurations with compressed / frequent-directions / LOBPCG-deflated / warm-started roots (thorough: x graft {SGD, RMSProp, normalised AdaGrad}), ALL words of length T "
         "(T=3 quick: 343 words, 399 steps; thorough T=5 restricted to <=3 non-normal letters) over the alphabet "
         "{normal, zero, tiny 1e-12, huge 1e12, overflow 1e30, NaN entry, +-Inf entry} are replayed through one compiled step; "
         "evaluations = words; a word is non-trivial when it contains a rejected root attempt or a poisoned (NaN/Inf/overflow) step; "
@@ -53,10 +53,19 @@ def all_configs(tier="quick"):
   # other statistic sizes: all-1x1 statistics (scalar root branch) and one 64x64 statistic (large reductions)
   for x64, mode, eigh, interval, tree in itertools.product([True, False], ["jit", "pmapq", "sharded"], [False, True], [1, 2], ["ones", "big", "ragged1"]):
     out.append({"x64": x64, "mode": mode, "thr": 0.1, "eps": 1e-6, "eigh": eigh, "interval": interval, "tree": tree})
+  # a leaf with 1600 entries: moderate (1e12) gradients have a norm above 3.4e13, where quotients by the 1e-25 guard overflow float32
+  for x64, mode, eigh, eps in itertools.product([True, False], ["jit", "pmapq", "sharded"], [False, True], [0.0, 1e-6]):
+    out.append({"x64": x64, "mode": mode, "thr": 0.1, "eps": eps, "eigh": eigh, "interval": 2, "tree": "large"})
+  # other preconditioner representations / root routines: low-rank compressed, frequent-directions sketch, LOBPCG-deflated
+  # Newton, warm-started (reuse_preconditioner); tree with statistics large enough for them
+  for x64, mode, interval, rep in itertools.product([True, False], ["jit", "sharded"], [1, 2], ["comp", "fd", "lobpcg", "reuse"]):
+    if rep == "fd" and x64 and False:
+      continue
+    out.append({"x64": x64, "mode": mode, "thr": 0.1, "eps": 1e-6, "eigh": False, "interval": interval, "tree": "wide", "rep": rep})
   return out
 
 
-TREES = {"default": {"a": [4, 3], "b": [5]}, "ones": {"a": [1], "b": [1, 1]}, "big": {"a": [64], "b": [3]},
+TREES = {"wide": {"a": [8, 6], "b": [7]}, "large": {"a": [40, 40], "b": [3]},"default": {"a": [4, 3], "b": [5]}, "ones": {"a": [1], "b": [1, 1]}, "big": {"a": [64], "b": [3]},
          # ragged last block of size one: a padded 1x1 statistic among larger ones
          "ragged1": {"a": [9, 4], "b": [3]}}
 
@@ -100,11 +109,22 @@ def grads_for(depth, letter, seed, tree=None):
 
 
 def make_runner(c):
-  cfg = dict(block_size=64 if c.get("tree") == "big" else 8, graft_type=c.get("graft", 1), start_preconditioning_step=1, merge_small_dims_block_size=1,
+  cfg = dict(block_size=64 if c.get("tree") in ("big", "large") else 8, graft_type=c.get("graft", 1), start_preconditioning_step=1, merge_small_dims_block_size=1,
              best_effort_shape_interpretation=False,
              inverse_failure_threshold=c["thr"], matrix_epsilon=c["eps"], eigh=c["eigh"],
              preconditioning_compute_steps=c["interval"], learning_rate=0.1,
              beta2=c.get("beta2", 0.999))
+  rep = c.get("rep")
+  if rep:
+    cfg["block_size"] = 16
+  if rep == "comp":
+    cfg["compression_rank"] = 1
+  elif rep == "fd":
+    cfg.update(compression_rank=1, frequent_directions=True, reuse_preconditioner=True, statistics_compute_steps=c["interval"])
+  elif rep == "lobpcg":
+    cfg["lobpcg_topk_precondition"] = 1
+  elif rep == "reuse":
+    cfg["reuse_preconditioner"] = True
   params = {k: np.ones(tuple(s), np.float32) for k, s in tree_of(c).items()}
   return H.Runner(cfg, params, c["mode"], 2 if c["mode"] == "sharded" else 1)
 
